@@ -338,34 +338,40 @@ def prove_groups(groups, axioms, timeout_ms, workers):
     # static round-robin partition, largest groups first
     order = sorted(range(n), key=lambda i: -len(groups[i]))
     parts = [order[w::workers] for w in range(workers)]
-    pipes = []
-    for part in parts:
-        rfd, wfd = os.pipe()
-        pid = os.fork()
-        if pid == 0:
-            os.close(rfd)
-            try:
-                payload = {}
-                for gi in part:
-                    payload[gi] = [(r.status, r.backend, r.secs, r.model, r.reason, r.smt2, groups[gi][j].meta)
-                                   for j, r in enumerate(run_group(groups[gi]))]
-                data = pickle.dumps(payload)
-            except BaseException as e:      # pragma: no cover
-                data = pickle.dumps({"__error__": repr(e)})
-            with os.fdopen(wfd, "wb") as f:
-                f.write(data)
-            os._exit(0)
-        os.close(wfd)
-        pipes.append((pid, rfd))
+    import tempfile
+    import shutil
+    tmpd = tempfile.mkdtemp(prefix="verif-prove-", dir=os.environ.get("VERIF_SCRATCH"))
+    procs = []
     got = {}
-    for pid, rfd in pipes:
-        with os.fdopen(rfd, "rb") as f:
-            data = f.read()
-        os.waitpid(pid, 0)
-        payload = pickle.loads(data) if data else {"__error__": "worker died"}
-        if "__error__" in payload:
-            raise RuntimeError("prover worker failed: %s" % payload["__error__"])
-        got.update(payload)
+    try:
+        for wi, part in enumerate(parts):
+            out_path = os.path.join(tmpd, "%d.pkl" % wi)
+            pid = os.fork()
+            if pid == 0:
+                try:
+                    payload = {}
+                    for gi in part:
+                        payload[gi] = [(r.status, r.backend, r.secs, r.model, r.reason, r.smt2, groups[gi][j].meta)
+                                       for j, r in enumerate(run_group(groups[gi]))]
+                    data = pickle.dumps(payload)
+                except BaseException as e:      # pragma: no cover
+                    data = pickle.dumps({"__error__": repr(e)})
+                with open(out_path, "wb") as f:
+                    f.write(data)
+                os._exit(0)
+            procs.append((pid, out_path))
+        for pid, out_path in procs:
+            os.waitpid(pid, 0)
+            try:
+                with open(out_path, "rb") as f:
+                    payload = pickle.loads(f.read())
+            except Exception:
+                payload = {"__error__": "worker died"}
+            if "__error__" in payload:
+                raise RuntimeError("prover worker failed: %s" % payload["__error__"])
+            got.update(payload)
+    finally:
+        shutil.rmtree(tmpd, ignore_errors=True)
     out = []
     for gi, g in enumerate(groups):
         for ob, tup in zip(g, got[gi]):
